@@ -4,5 +4,5 @@ CONSTANTS
   M = 40
   Delta = 10
   K = 16
-INVARIANTS InvWellFormed InvHFinished InvHNotEarlyInt InvHInterruptedIfBlocked InvHVerdictBlocked InvHVerdictEarly InvHVerdictBoundary InvHNoChildLeft InvHNotEarlyTimeout InvSIntOnTime InvSKillOnTime InvSKillNotBeforeGrace InvSDoneByDeadline InvSEarlyUndelayed
+INVARIANTS InvWellFormed InvHFinished InvHNotEarlyInt InvHInterruptedIfBlocked InvHVerdictBlocked InvHVerdictEarly InvHVerdictBoundary InvHNoChildLeft InvHNotEarlyTimeout InvSIntOnTime InvSKillOnTime InvSKillNotBeforeGrace InvSDoneByDeadline InvSEarlyUndelayed InvSLateKillNotBeforeGrace InvSLateKillOnTime
 CHECK_DEADLOCK FALSE
